@@ -406,6 +406,14 @@ impl Printable for ArgsDesc {
 		}
 		format_comments(&end_comments.trivia, CommentLocation::EndOfItems, out);
 		p!(out, str(")") info(end));
+		// the parser keeps the keyword inside the ARGS_DESC node, after the `)`
+		if self
+			.syntax()
+			.children_with_tokens()
+			.any(|c| c.kind() == jrsonnet_rowan_parser::T![tailstrict])
+		{
+			p!(out, str(" tailstrict"));
+		}
 	}
 }
 impl Printable for SliceDesc {
